@@ -152,4 +152,17 @@ PROPS = {
         "assumptions": ["not covered: hook timing relative to flip-flop commit, the WebAssembly transport (no wasm32 target), HostValue::as_vrl and the raw-pointer FFI side, call_method",
                         "observation (not a contract): parameters/method arguments are two-state by design; Value::as_i64 ignores mask_xz"],
     },
+    "C31": {
+        "units": ["lockres"],
+        "level": "proof",
+        "clause": "Selection kernel of the first sentence, per (url, project, requirement): Lockfile::resolve_version_from_lockfile returns exactly the first lock of that url that is a repository "
+                  "lock of that project whose version satisfies the requirement (None iff there is none; lock table unchanged); resolve_version returns that locked release when it exists and "
+                  "force_update is off without touching the network side, otherwise what resolve_version_from_latest returns; resolve_version_from_latest (real control flow, fs/git calls "
+                  "outlined over a ghost world): on Ok the release is one of the published releases, satisfies the requirement and is a highest satisfying one; Err(VersionNotFound) iff none "
+                  "satisfies; git runs only under the resolve directory lock. The fresh-name kernel of gen_locks hands out a name not in the shared table (least free suffix). (Verus, unbounded.)",
+        "assumptions": ["not covered: the iteration over all dependency declarations (resolve_dependency / gen_locks BFS, uuid dedup), the save/reload clause, the update-reports-no-modification clause, "
+                        "that Lock.name is the name handed out (by inspection), that the Veryl.pub read is the dependency's at the fetched head",
+                        "assumed: semver::Version order is total (ver_le) and VersionReq::matches is a predicate (sat); sort_by returns a permutation ordered by the comparator; HashMap/HashSet behave as finite maps/sets",
+                        "with force_update the latest release is taken (read off cmd_update.rs); C31's own sentence does not mention force_update, so that part of the contract is stricter than the statement"],
+    },
 }
